@@ -763,11 +763,16 @@ impl<'a> Runner<'a> {
     let mut errors_seen: Vec<u32> = vec![];
     let mut cutoff = false;
     let mut fam_access = [0u64; 5];
-    let mut probes = [false; 6];
+    let mut probes = [false; 7];
     let mut probe_stale: BTreeSet<Tid> = BTreeSet::new();
     let mut sig_violations: Vec<Violation> = vec![];
     let mut coarse_ignored = false;
     let mut order_candidates: Vec<(Tid, Tid)> = vec![];
+    // Tasks whose record at the start of the session is an aborted (output-less, partial) execution. A bottom-up build
+    // can both schedule such a task through its leftover dependencies and execute it as a "new" task when it is
+    // required; no listed property quantifies over bottom-up builds after an abort (C04: histories of reported
+    // changes; C19: later top-down builds), so the once / justification rules are not applied to these tasks.
+    let aborted_at_start: Vec<bool> = (0..ntasks).map(|t| self.ledger[t].as_ref().map(|e| !e.completed).unwrap_or(false)).collect();
 
     for (i, ev) in slice.iter().enumerate() {
       match ev {
@@ -806,7 +811,9 @@ impl<'a> Runner<'a> {
           exec_count[*t] += 1;
           if exec_count[*t] > 1 {
             let props: &[&str] = if in_bu_phase { &["C04"] } else { &["C02"] };
-            v(props, "executed-twice", format!("task {t} entered execute {} times in one session", exec_count[*t]));
+            if in_bu_phase && aborted_at_start[*t] { probes[6] = true; } else {
+              v(props, "executed-twice", format!("task {t} entered execute {} times in one session", exec_count[*t]));
+            }
           }
           if exec_stack.contains(t) {
             v(&["C07"], "cycle-reentered", format!("task {t} was entered again while it is still executing (stack {:?})", exec_stack));
@@ -816,6 +823,7 @@ impl<'a> Runner<'a> {
             if in_bu_phase {
               match pending.get(t) {
                 Some(_) => {}
+                None if aborted_at_start[*t] => {}
                 None => { v(&["C04", "C09"], "bu-unjustified-execution", format!("task {t} was executed in a bottom-up build although none of its recorded dependencies was found inconsistent and it had completed before")); }
               }
               // Order: no scheduled task that t (transitively) requires may still be waiting.
@@ -1170,7 +1178,7 @@ impl<'a> Runner<'a> {
     if cutoff { self.stats.hit("probe_early_cutoff"); }
     for (i, n) in fam_access.iter().enumerate() { self.stats.add(["access_sim_RA", "access_sim_RB", "access_map_MK2", "access_map_MK3", "access_file"][i], *n); }
     if coarse_ignored { self.stats.hit("probe_coarse_ignored_change"); }
-    for (i, name) in ["probe_bu_queue_ge3", "probe_bu_nested_execution_of_scheduled_task", "probe_bu_new_task_executed_nested", "probe_dependency_set_changed", "probe_generated_resource_repaired", "probe_reserved_edge_after_abort"].iter().enumerate() { if probes[i] { self.stats.hit(name); } }
+    for (i, name) in ["probe_bu_queue_ge3", "probe_bu_nested_execution_of_scheduled_task", "probe_bu_new_task_executed_nested", "probe_dependency_set_changed", "probe_generated_resource_repaired", "probe_reserved_edge_after_abort", "observed_bu_double_execution_of_aborted_task"].iter().enumerate() { if probes[i] { self.stats.hit(name); } }
     if !executed.is_empty() { self.stats.add("executions", exec_count.iter().map(|c| *c as u64).sum()); }
     self.trace = trace;
     for vi in violations { if self.vs.len() < 16 { self.vs.push(vi); } }
